@@ -62,30 +62,45 @@ Depth3(L) ==
 
 CoreLeaves == TLCEval({<<"=", "a", vXY>>, <<"!=", "a", vXY>>, <<"=", "b", <<>>>>, <<"!=", "b", <<>>>>,
                        <<"=~", "a", rLitXY>>, <<"!~", "b", rLitXY>>, <<"=~", "b", rDotStar>>, <<"!~", "a", rDotPlus>>,
-                       <<"=~", "a", rPre>>, <<"=", "b", vX>>})
+                       <<"=~", "a", rPre>>, <<"=", "b", vX>>, <<"!~", "b", rEmptyAnch>>, <<"=~", "a", rCls>>})
 TinyLeaves == TLCEval({<<"=", "a", vXY>>, <<"!=", "b", <<>>>>, <<"!~", "a", rLitXY>>, <<"=~", "b", rDotPlus>>})
 
 \* design check: every leaf, every depth-2 tree over the core leaves (plus parenthesised forms),
 \* every producible depth-3 tree over the tiny leaves
-DesignPreds == TLCEval(AllLeaves \cup {<<"TRUE">>} \cup Pairs(CoreLeaves, CoreLeaves)
-                       \cup Wrapped(Pairs(TinyLeaves, TinyLeaves)) \cup Depth3(TinyLeaves))
+DesignPreds2 == TLCEval(AllLeaves \cup {<<"TRUE">>} \cup Pairs(CoreLeaves, CoreLeaves)
+                        \cup Wrapped(Pairs(TinyLeaves, TinyLeaves)))
+DesignPreds == TLCEval(DesignPreds2 \cup Depth3(TinyLeaves))
 LifePreds   == TLCEval(CoreLeaves \cup {<<"TRUE">>} \cup Pairs(TinyLeaves, TinyLeaves))
 
 \* ---- initial states for the search design check: any set of <= MaxSeries flushed series ---------------
 CONSTANT M1c, M2c
 NormKeys(m) == {k \in RawKeys : k = Norm(k) /\ k.m = m}
 OtherKey == [m |-> M2c, t |-> [x \in TKeys |-> vXY]]
-InitFrom(S) ==
+SetupFrom(S) ==
   LET q == SetToSeq(S)
       pairs == {<<q[i], 100 + i>> : i \in 1..Len(q)} \cup {<<OtherKey, 100>>}
-  IN /\ open = TRUE /\ pending = {} /\ cache = {} /\ nReopen = 0 /\ hist = <<>>
-     /\ nextId = [clock |-> 1, seq |-> 50]
-     /\ key2id = pairs
-     /\ id2key = {<<p[2], p[1]>> : p \in pairs}
-     /\ tag2ids = UNION {TagItems(p[1], p[2]) : p \in pairs}
-InitSets == \E n \in 0..MaxSeries : \E S \in kSubset(n, NormKeys(M1c)) : InitFrom(S)
-NoNext == FALSE /\ UNCHANGED vars
-SpecSets == InitSets /\ [][NoNext]_vars
+  IN /\ open' = TRUE /\ pending' = {} /\ cache' = {} /\ nReopen' = 99 /\ hist' = <<>>
+     /\ nextId' = [clock |-> 1, seq |-> 50]
+     /\ key2id' = pairs
+     /\ id2key' = {<<p[2], p[1]>> : p \in pairs}
+     /\ tag2ids' = UNION {TagItems(p[1], p[2]) : p \in pairs}
+\* two steps from the empty index to any set of <= MaxSeries flushed series: the first picks a slice
+\* (so that the 16 workers share the evaluation of the invariants), the second the set
+KeysSeq == TLCEval(SetToSeq(NormKeys(M1c)))
+NSlices == 16
+\* sets of at most n key indices larger than lo (kSubset is limited to 62 elements)
+RECURSIVE IdxSets(_, _)
+IdxSets(n, lo) == {{}} \cup (IF n = 0 THEN {}
+                             ELSE UNION {{{i} \cup T : T \in IdxSets(n - 1, i)} : i \in (lo + 1)..Len(KeysSeq)})
+NextSets ==
+  \/ /\ nReopen = 0 /\ key2id = {}
+     /\ \E i \in 1..NSlices : nReopen' = i
+     /\ UNCHANGED <<open, key2id, id2key, tag2ids, pending, cache, nextId, hist>>
+  \/ /\ nReopen > 0 /\ key2id = {}
+     /\ \/ (nReopen = NSlices /\ SetupFrom({}))
+        \/ \E j \in {jj \in 1..Len(KeysSeq) : jj % NSlices = nReopen % NSlices} :
+             \E T \in IdxSets(MaxSeries - 1, j) : SetupFrom({KeysSeq[l] : l \in {j} \cup T})
+SpecSets == Init /\ [][NextSets]_vars
 
 \* ---- simulation: random predicates ---------------------------------------------------------------------
 \* (every random draw is bound once through a singleton set: LET definitions are re-evaluated per use)
@@ -135,7 +150,8 @@ Scripts == { << K(M1c, NoTag, NoTag), K(M1c, vX, NoTag), K(M1c, vXY, vY), K(M1c,
              << K(M1c, vXY12, vX), K(M1c, vY, vXY1), K(M1c, vXS, NoTag), K(M1c, vS, vXY), K(M1c, NoTag, vXY), K(M2c, NoTag, NoTag) >>,
              << K(M1c, vXY, NoTag), K(M1c, NoTag, vXY), K(M1c, vXY, vXY), K(M2c, vXY1, vS), K(M2c, vX, vX), K(M2c, vXS, vY) >> }
 ScriptLen == 6
-ScriptPreds == TLCEval(SetToSeq(DesignPreds))
+CONSTANT ScriptPredSet
+ScriptPreds == TLCEval(SetToSeq(ScriptPredSet))
 ChunkLen == 12
 NChunks == (Len(ScriptPreds) + ChunkLen - 1) \div ChunkLen
 Chunk(c) == LET lo == (c - 1) * ChunkLen + 1
